@@ -226,3 +226,50 @@ func VerifC03_Lowered() {
 	}
 	vReach("c03.lowered")
 }
+
+// ---- long streams of large frames over larger msize --------------------------
+// k frames in a row on one channel; each is a Twrite (or Rread) whose total size
+// is drawn from a set around msize/2, msize and 2*msize, or a frame with an
+// unknown type byte; contents are a concrete pattern with symbolic first/last
+// byte, tags and fids symbolic.  The conn delivers the stream whole, in 7-byte
+// or in 1500-byte pieces.  Every frame must be handled by the reference framing
+// rule, whatever came before it.
+func vC03Stream(msizes []int, k int, nsizes int, nkinds int, chunks []int) {
+	msize := msizes[ndChoice("msize", len(msizes))]
+	conn := &vCaptureConn{chunk: chunks[ndChoice("chunk", len(chunks))]}
+	type fr struct {
+		size  uint32
+		after []byte
+	}
+	var frames []fr
+	for i := 0; i < k; i++ {
+		total := []int{23, msize/2 + 100, msize, msize + 1, 2*msize - 200, msize - 1, msize + msize/8}[ndChoice("size", nsizes)]
+		var enc []byte
+		switch []int{0, 2, 1}[ndChoice("kind", nkinds)] {
+		case 0:
+			enc = refEncode(Twrite, Tag(ndU16("tag")), MessageTwrite{Fid: Fid(ndU32("fid")), Offset: ndU64("offset"), Data: vBigBytes("data", total-23)})
+		case 1:
+			n := total - 11
+			enc = refEncode(Rread, Tag(ndU16("tag")), MessageRread{Data: vBigBytes("data", n)})
+		case 2:
+			enc = vBigBytes("junk", total-4)
+			enc[0] = 0xEE // no such message type
+		}
+		f := vFrame(enc)
+		conn.in = append(conn.in, f...)
+		frames = append(frames, fr{uint32(len(f)), enc})
+	}
+	ch := NewChannel(conn, msize)
+	for _, f := range frames {
+		if !vC03Check(ch, f.size, f.after, msize) {
+			break
+		}
+	}
+	vReach("c03.stream")
+}
+
+func VerifC03_StreamQuick() { vC03Stream([]int{4097, 8192}, 3, 5, 2, []int{0, 1500}) }
+func VerifC03_StreamThorough() {
+	vC03Stream([]int{300, 4096, 4097, 8192, 16384, 65536}, 3, 7, 3, []int{0, 7, 1500})
+}
+func VerifC03_Stream4() { vC03Stream([]int{4097, 16384}, 4, 5, 2, []int{0}) }
